@@ -701,6 +701,42 @@ func (r *runner) classify(desc map[string]any, in []Block, mode int, compacting 
 			}
 		}
 	}
+	// twin chunks: one label set, two blocks, same MinTime / MaxTime / sample count, other content;
+	// replica chunks: the same with identical content
+	twin, replica := false, false
+	chunksOf := map[int][][]Chunk{}
+	for _, b := range in {
+		for _, s := range b.Ser {
+			chunksOf[s.L] = append(chunksOf[s.L], s.Chks)
+		}
+	}
+	for _, per := range chunksOf {
+		for i := range per {
+			for j := i + 1; j < len(per); j++ {
+				for _, a := range per[i] {
+					for _, c := range per[j] {
+						if a.Min == c.Min && a.Max == c.Max && len(a.Smp) == len(c.Smp) {
+							same := true
+							for k := range a.Smp {
+								same = same && a.Smp[k] == c.Smp[k]
+							}
+							if same {
+								replica = true
+							} else {
+								twin = true
+							}
+						}
+					}
+				}
+			}
+		}
+	}
+	if twin {
+		m.Hit("twin-chunks")
+	}
+	if replica {
+		m.Hit("replica-chunks")
+	}
 	overlap, dup, dupDiff, kindMix := false, false, false, false
 	for _, sp := range perLabel {
 		if len(sp) > 1 {
@@ -1055,6 +1091,43 @@ func genRich(r *gen.Rand, lo, hi, grid int64, n int, kinds []int, switchy bool) 
 	return base
 }
 
+// twinChunks derives chunks with the same MinTime, MaxTime and number of samples as the given
+// ones. mode 0: identical (replica); 1: same timestamps, other values; 2: other interior
+// timestamps (first and last kept) and other values where the span leaves room.
+func twinChunks(r *gen.Rand, cs [][]S, grid int64, mode int) [][]S {
+	out := make([][]S, len(cs))
+	for ci, c := range cs {
+		n := append([]S(nil), c...)
+		if mode >= 1 {
+			for i := range n {
+				if n[i].V != staleV && n[i].V%1000 != 999 && r.Chance(2, 3) {
+					n[i].V++
+				}
+			}
+		}
+		if mode == 2 && len(n) >= 3 {
+			lo, hi := n[0].T, n[len(n)-1].T
+			slots := (hi-lo)/grid - 1 // grid points strictly inside
+			if slots >= int64(len(n)-2) {
+				set := map[int64]struct{}{}
+				for int64(len(set)) < int64(len(n)-2) {
+					set[lo+grid*r.Range(1, slots)] = struct{}{}
+				}
+				ts := make([]int64, 0, len(set))
+				for t := range set {
+					ts = append(ts, t)
+				}
+				sort.Slice(ts, func(i, j int) bool { return ts[i] < ts[j] })
+				for i, t := range ts {
+					n[i+1].T = t
+				}
+			}
+		}
+		out[ci] = n
+	}
+	return out
+}
+
 func genCase(r *gen.Rand, big, rich bool) *CaseSpec {
 	cs := &CaseSpec{Compacting: !r.Chance(1, 8)}
 	nb := 1 + r.Intn(3)
@@ -1121,11 +1194,13 @@ func genCase(r *gen.Rand, big, rich bool) *CaseSpec {
 				continue
 			}
 			var chs [][]S
-			if prev != nil && r.Chance(1, 5) {
-				// replica of the same series of the previous block (perfect duplicate chunks)
+			if prev != nil && r.Chance(1, 3) {
+				// derived from the same series of the previous block: a byte-identical replica
+				// (perfect duplicate chunks, the control), or "twin" chunks: same MinTime, MaxTime
+				// and sample count but other values / other interior timestamps
 				for _, ps := range prev.Ser {
 					if ps.L == l {
-						chs = ps.Chunks
+						chs = twinChunks(r, ps.Chunks, grid, r.Intn(3))
 					}
 				}
 			}
@@ -1317,6 +1392,30 @@ func corpus() []*CaseSpec {
 		{Name: "stale-floats-overlap", Compacting: true, Blocks: []BlkSpec{
 			{Min: 0, Max: 41, Ser: []SerSpec{{L: 0, Chunks: [][]S{{{0, 1, 1}, {10, 1, staleV}, {20, 1, 2}, {40, 1, staleV}}}}}},
 			{Min: 0, Max: 41, Ser: []SerSpec{{L: 0, Chunks: [][]S{{{5, 1, staleV}, {10, 1, 3}, {30, 1, 4}}}}}}}},
+		// twin chunks: same MinTime, MaxTime and sample count, different inside: NOT duplicates
+		{Name: "twin-chunks-different-interior-float", Compacting: true, Blocks: []BlkSpec{
+			{Min: 0, Max: 21, Ser: []SerSpec{{L: 0, Chunks: [][]S{{{0, 1, 1}, {10, 1, 2}, {20, 1, 3}}}}}},
+			{Min: 0, Max: 21, Ser: []SerSpec{{L: 0, Chunks: [][]S{{{0, 1, 1}, {15, 1, 2}, {20, 1, 3}}}}}}}},
+		{Name: "twin-chunks-different-interior-triple-int-histogram", Compacting: true, Blocks: []BlkSpec{
+			{Min: 0, Max: 21, Ser: []SerSpec{{L: 3, Chunks: [][]S{{{0, 2, 1}, {10, 2, 2}, {20, 2, 3}}}}}},
+			{Min: 0, Max: 21, Ser: []SerSpec{{L: 3, Chunks: [][]S{{{0, 2, 1}, {15, 2, 2}, {20, 2, 3}}}}}},
+			{Min: 0, Max: 21, Ser: []SerSpec{{L: 3, Chunks: [][]S{{{0, 2, 1}, {5, 2, 2}, {20, 2, 3}}}}}}}},
+		{Name: "twin-chunks-different-interior-float-histogram", Compacting: true, Blocks: []BlkSpec{
+			{Min: 0, Max: 41, Ser: []SerSpec{{L: 3, Chunks: [][]S{{{0, 3, 8001}, {10, 3, 8002}, {20, 3, 8003}}, {{30, 3, 8004}, {35, 3, 8005}, {40, 3, 8006}}}}}},
+			{Min: 0, Max: 41, Ser: []SerSpec{{L: 3, Chunks: [][]S{{{0, 3, 8001}, {15, 3, 8002}, {20, 3, 8003}}, {{30, 3, 8004}, {36, 3, 8005}, {40, 3, 8006}}}}}}}},
+		{Name: "twin-chunks-different-interior-nhcb", Compacting: true, Blocks: []BlkSpec{
+			{Min: 0, Max: 21, Ser: []SerSpec{{L: 5, Chunks: [][]S{{{0, 2, 11001}, {10, 2, 11002}, {20, 2, 11003}}}}, {L: 6, Chunks: [][]S{{{0, 3, 11001}, {10, 3, 11002}, {20, 3, 11003}}}}}},
+			{Min: 0, Max: 21, Ser: []SerSpec{{L: 5, Chunks: [][]S{{{0, 2, 11001}, {12, 2, 11002}, {20, 2, 11003}}}}, {L: 6, Chunks: [][]S{{{0, 3, 11001}, {12, 3, 11002}, {20, 3, 11003}}}}}}}},
+		// same timestamps, different values, 130 samples: either value may win, but the chunks are
+		// not duplicates, so they are re-encoded (cut at 120)
+		{Name: "twin-chunks-same-timestamps-different-values-130", Compacting: true, Blocks: []BlkSpec{
+			{Min: 0, Max: 130, Ser: []SerSpec{{L: 5, Chunks: [][]S{seq(0, 130, 1, 1, 3)}}}},
+			{Min: 0, Max: 130, Ser: []SerSpec{{L: 5, Chunks: [][]S{seq(0, 130, 1, 1, 4)}}}}}},
+		// a twin next to a true replica: the replica collapses, the twin must not
+		{Name: "twin-and-replica", Compacting: true, Blocks: []BlkSpec{
+			{Min: 0, Max: 21, Ser: []SerSpec{{L: 0, Chunks: [][]S{{{0, 1, 1}, {10, 1, 2}, {20, 1, 3}}}}}},
+			{Min: 0, Max: 21, Ser: []SerSpec{{L: 0, Chunks: [][]S{{{0, 1, 1}, {10, 1, 2}, {20, 1, 3}}}}}},
+			{Min: 0, Max: 21, Ser: []SerSpec{{L: 0, Chunks: [][]S{{{0, 1, 1}, {7, 1, 9}, {20, 1, 3}}}}}}}},
 		{Name: "negative-times-trim", Compacting: true, Mode: 1, Mint: -25, Maxt: -4, Blocks: []BlkSpec{
 			{Min: -40, Max: 1, Ser: []SerSpec{{L: 7, Chunks: [][]S{{{-40, 2, 1}, {-30, 2, 2}, {-25, 2, 3}}, {{-20, 3, 4}, {-5, 3, 5}, {-4, 3, 6}, {0, 3, 7}}}}},
 				Del: []DelSpec{{Min: -26, Max: -25, Sel: -1}}}}},
